@@ -11,7 +11,7 @@ rationals — one output per run, sum / mean within the rounding bound, max / ta
 index rejected, totals conserved; flathomogen keeps missing, writes the group mean, preserves group totals;
 monthly2daily gives one value per calendar day (python `calendar`) whose monthly sums are the inputs;
 `signatures.goue` equals the Nash-Sutcliffe of the flat-homogenised series.
-Cases: exhaustive index compositions x value alphabet {NaN,-1.5,0,2} x operators 0..3 x maxnan 0..n+1 for n <= 3
+Cases: exhaustive index compositions x value alphabet {NaN,-1.5,-3,0,2} x operators 0..3 x maxnan 0..n+1 for n <= 3
 (n <= 4 thorough); hand-written branch cases; random cases (constant / strictly increasing / runs of any length
 / negative / int32-extreme indices; negative, zero, signed-zero, integer, dyadic and random doubles; NaN leading,
 trailing, whole groups, everywhere; maxnan chosen around the NaN count of a group and beyond the length);
@@ -476,7 +476,7 @@ def body(ctx):
     do_flathomogen([1, 1, 2], [1.0, NAN, -3.0], -1, "outside", oracle=False)
 
     # ---------------- 2. exhaustive small space
-    alphabet = [NAN, -1.5, 0.0, 2.0]
+    alphabet = [NAN, -1.5, -3.0, 0.0, 2.0]
     nmax = ctx.scale(3, 4)
     for n in range(1, nmax + 1):
         for cuts in itertools.product([0, 1], repeat=n - 1):
@@ -495,7 +495,7 @@ def body(ctx):
                     do_flathomogen(idx, vals, maxnan, f"exh{n}")
 
     # ---------------- 3. random structured stream
-    nrand = ctx.scale(4000, 40000)
+    nrand = ctx.scale(10000, 60000)
     lmax = ctx.scale(60, 2000)
     for it in range(nrand):
         r = rng.random()
@@ -509,7 +509,7 @@ def body(ctx):
             do_flathomogen(idx, vals, maxnan, ikind)
 
     # ---------------- 4. malformed stream: the index decreases somewhere
-    for it in range(ctx.scale(400, 4000)):
+    for it in range(ctx.scale(800, 6000)):
         n = rng.randint(2, 40)
         idx, ikind = gen_index(rng, n)
         vals, bounds, vkind = gen_values(rng, idx)
@@ -559,7 +559,7 @@ def body(ctx):
                         {"fn": "goue", "aggindex": idx, "values": vals, "got": g, "expected": want})
 
     # ---------------- 6. monthly2daily
-    nser = ctx.scale(200, 2000)
+    nser = ctx.scale(400, 3000)
     specials = [(1900, 1), (1900, 2), (2000, 2), (2100, 2), (2024, 2), (2023, 2), (1999, 12), (2003, 11)]
     for it in range(nser):
         if it < len(specials):
